@@ -37,9 +37,13 @@ func decodeMarker(t *decoder.Tree) string {
 	ctx := decoder.NewCtx()
 	obj := &testobj.TestObject{}
 	ctx.Set("obj", obj, testobj_ins.TestObjectInspector{})
+	st := &testobj.TestObject{Finance: &testobj.TestFinance{History: []testobj.TestHistory{{DateUnix: 1}, {DateUnix: 2}}}}
+	ctx.Set("st", st, testobj_ins.TestObjectInspector{})
 	func() {
 		defer func() { _ = recover() }()
 		_ = decoder.DecodeRuleset(t.Ruleset(), ctx)
+		// what a caller does next: the context goes back for reuse
+		ctx.Reset()
 	}()
 	return fmt.Sprintf("%s|%s|%d", obj.Id, obj.Name, obj.Status)
 }
@@ -60,6 +64,10 @@ func init() {
 			p1 := genProgramText(rng, nil)
 			a := fmt.Sprintf("obj.Status = %d\n", 100+rng.intn(800))
 			b := fmt.Sprintf("obj.Status = %d\n", 100+rng.intn(800))
+			if i%3 == 0 {
+				// a text whose decode goes through range loops (the loop objects keep the body they ran)
+				p1 = fmt.Sprintf("for _, v := range st.Finance.History {\nobj.Status = %d\nfor k := range st.Finance.History {\nobj.Id = \"in\"\n}\n}\n", 100+rng.intn(800))
+			}
 			texts := []string{"", " \n\t", a, b, p1, "if obj.Status == 1 {\nobj.Id = \"x\"\n",
 				// a name that is registered in another spelling only: rejected, and the bytes stay as given
 				pick(rng, []string{"obj.Id = jso.s|Default(\"x\")\n", "obj.Name = jso.s|UpperFirst\n", "Probe(jso.a)\n", "obj.Id = Crc32(jso.s)\n", "obj.Id = jso.s|Upper()\nobj.Status = 5\n"})}
